@@ -3,6 +3,7 @@ From Coq Require Import List Bool ZArith Lia.
 Import ListNotations.
 From Rosed Require Import Base.Res Base.ListX Base.Utf8 Gem.Segment Gem.GString Model.Tb Model.Manip Model.Table Model.Options Model.Editor Model.Ops
      Proofs.SeamP Proofs.C04P Proofs.C13P Proofs.C14P Proofs.C15P Proofs.C14Q Proofs.C14R.
+From Rosed Require Import Proofs.C15R.
 Open Scope Z_scope.
 
 (* both columns are at least 2 wide and lw + gap + rw is the minimum-clamped total
@@ -78,3 +79,8 @@ Theorem C14_rows_width : forall (C : Classifier) (K : ClassifierOk) (U : Upper) 
   forall k, glen (row_of (b_lines lb) (b_lines rb) (lw + gap) k) <= W.
 Proof. intros C K U. exact two_columns_rows_width. Qed.
 Print Assumptions C14_rows_width.
+
+(* two empty column texts produce no output: the Editor is returned as it is *)
+Theorem C14_empty_texts : forall (C : Classifier) (U : Upper) pos gap width m ex opts e, insert_two_columns_opts pos [] [] gap width m ex opts e = Ok e.
+Proof. intros C U. exact two_columns_empty. Qed.
+Print Assumptions C14_empty_texts.
